@@ -259,6 +259,12 @@ pub mod raw {
                 out.push(ok as u8); wr(&o.compress().0, out)
             }
             // ---- byte-level group entry points for the replay of layer-G counterexamples: points travel compressed, scalars as raw bytes
+            "g_precomputed" => {
+                // args: static scalar, static point (compressed), dynamic scalar, dynamic point (compressed)
+                let pt = |b: &[u8]| crate::edwards::CompressedEdwardsY(rd::<B32>(b)).decompress().expect("replay point decodes");
+                let r = vp_g_precomputed(&[scalar_raw(rd::<B32>(a[0]))], &[pt(a[1])], &[scalar_raw(rd::<B32>(a[2]))], &[pt(a[3])]);
+                wr(&r.compress().0, out)
+            }
             "g_ed_mul" | "g_mul_base" | "g_vartime_double" | "g_multiscalar" | "g_vartime_multiscalar" => {
                 use crate::edwards::CompressedEdwardsY as C; use crate::traits::{MultiscalarMul, VartimeMultiscalarMul};
                 let pt = |b: &[u8]| C(rd::<B32>(b)).decompress().expect("replay point decodes");
